@@ -89,6 +89,8 @@ func TestDevProbe(t *testing.T) {
 		}
 		w1, d1 := compare(m, rt)
 		w2, d2 := compare(m, rb)
+		w1, d1 = triage(init, ops, com, rt, w1, d1)
+		w2, d2 = triage(init, ops, com, rb, w2, d2)
 		fmt.Println(p, "halt", m.Halt, "log", m.Log, "notes", m.State.Notes, "restores", m.Restores, m.Undone)
 		if !rb.Halt {
 			fmt.Println("    fault:", rb.Fault, "notes", rb.Notes)
